@@ -204,6 +204,11 @@ class HttpProtocolHandler(BaseTcpServerHandler[HttpClientConnection]):
                 teardown = await super().handle_writables(writables)
                 if teardown:
                     return True
+            except ssl.SSLWantWriteError:   # Try again later
+                logger.warning(     # pragma: no cover
+                    'SSLWantWriteError when flushing buffer for client, will retry',
+                )
+                return False
             except BrokenPipeError:
                 logger.warning(     # pragma: no cover
                     'BrokenPipeError when flushing buffer for client',
